@@ -168,6 +168,16 @@ theorem readHeader_lookup (before after : List Str) (k v : Str) (hk : KeyOk k) (
   exact lookup_dictSet_self _ _ _
 
 
+/-- the reader takes exactly the written header block as header, the next line as column names and
+all remaining lines as table rows - also rows whose first character is `#` -/
+theorem splitFile_written (header : List Str) (cols : Str) (body : List Str)
+    (hh : ∀ l ∈ header, startsWith l ['#'] = true) (hc : startsWith cols ['#'] = false) :
+    splitFile (header ++ cols :: body) = (header, some cols, body) := by
+  unfold splitFile
+  have : (header ++ cols :: body).takeWhile (fun l => startsWith l ['#']) = header :=
+    takeWhile_append_stop _ _ _ _ hh hc
+  simp only [this, List.drop_left']
+
 /-! ### file names: the reader opens what the writer created -/
 
 theorem suffix_stem_zip (name : Str) (h : name ≠ []) :
